@@ -168,13 +168,20 @@ func RunScenario(t *testing.T, sc *Scenario, keepLog bool) (*Report, error) {
 		}
 	}
 
+	// Which comes first: the reference pass or the concurrent phase? With the
+	// references first, "independently of any queries executed before" is
+	// checked against a warm process; but the references also warm every
+	// lazily filled, process-wide structure before the tasks reach it
+	// together. Window-mode scenarios with an even seed (and every cold-start
+	// run) therefore run the concurrent phase first.
+	mainFirst := ColdStart || (sc.Mode == "window" && sc.Seed%2 == 0)
 	var refA, refNoFault refTable
 	switch sc.Property {
 	case "C19":
 		// Cold start: the concurrent phase is the first thing this process
 		// does with the library (lazily initialised package state must meet
 		// its first use there); both reference passes follow it.
-		if !ColdStart {
+		if !mainFirst {
 			if refA, err = alone(steady, false); err != nil {
 				return nil, err
 			}
@@ -252,7 +259,7 @@ func RunScenario(t *testing.T, sc *Scenario, keepLog bool) (*Report, error) {
 
 	switch sc.Property {
 	case "C19":
-		if ColdStart {
+		if mainFirst {
 			if refA, err = alone(steady, false); err != nil {
 				return nil, err
 			}
@@ -395,6 +402,13 @@ func (w *world) checkImmutable(rep *Report, clause string) {
 		if p == nil {
 			continue
 		}
+		twin, err := safeParse(w.sc.Paths[i])
+		if err != nil {
+			rep.Violations = append(rep.Violations, Violation{Clause: clause, Task: -1, Op: -1,
+				Detail: fmt.Sprintf("path %d %q parsed when the scenario started but not when it ended: %v", i, w.sc.Paths[i], err)})
+			continue
+		}
+		w.pathSnap[i] = pathSnapshot(twin)
 		if now := pathSnapshot(p); now != w.pathSnap[i] {
 			rep.Violations = append(rep.Violations, Violation{Clause: clause, Task: -1, Op: -1,
 				Detail: fmt.Sprintf("path %d changed: before %s after %s", i, w.pathSnap[i], now)})
